@@ -341,6 +341,12 @@ func RunFunctions() {
 	r, err = xsel.Exec(b.Root, fnString, xsel.WithFunction("other", c.fn(ret)))
 	s, ok = r.(xsel.String)
 	nd.Assert(err == nil && ok && s == "1", "fn.builtin-unaffected")
+	// bindings are per query: what was registered above is gone now
+	r, err = xsel.Exec(b.Root, fnCount)
+	n, ok = r.(xsel.Number)
+	nd.Assert(err == nil && ok && float64(n) == float64(nElems), "fn.shadow.does-not-outlive-the-query")
+	_, err = xsel.Exec(b.Root, fnPF, xsel.WithNS("p", u))
+	nd.Assert(err != nil, "fn.prefixed.unbound-in-a-later-query")
 }
 
 // builtin function names of XPath 1.0 section 4
